@@ -139,6 +139,19 @@ def adversarial(rng, tier):
             out.append(case_dense("strict", lim, None, f + md + mv))
     tr = box(b"trak", b"".join(box(b"mdia", b"") for _ in range(300)))
     out.append(case_dense("strict", 4096, None, f + md + box(b"moov", tr)))
+    # very many top-level boxes that are only skipped (heap must not grow with their number), before, between and after the media
+    # (the model reads byte lists: a few thousand boxes is what it runs in seconds; at limit 1024 the heap bound is 32 KiB, which
+    # 24 bytes per box would exceed from about 1400 boxes on)
+    for nb in ((3000,) if tier == "quick" else (3000, 6000)):
+        fill = b"".join(box(rng.choice([b"free", b"skip"]), b"") for _ in range(nb))
+        mds = b"".join(box(b"mdat", b"ab") for _ in range(nb // 2))
+        for lay in (f + fill + md + m1, f + m1 + md + fill, f + mds + m1):
+            out.append(case_dense("strict", 1024, None, lay))
+    # gaps for which the displacement does not fit an i32 (2^31 + 1 .. 2^32 - 9): refused, never padded
+    for g in (2**31 + 1, 2**31 + 4096, 2**32 - 9 - 200, 3 * 2**30):
+        L = Layout().add(f).add(box(b"free", b"", form="64", size=g), virtual=g).add(md).add(m1)
+        for rd in ("strict", "lenient"):
+            out.append(case_line(rd, 4096, None, L.total(), L.exts()))
     # multi-GiB virtual media
     for sz in (2**32 + 17, 2**35, 2**40):
         L = Layout().add(f).add(box(b"mdat", b"", form="64", size=sz), virtual=sz).add(m1)
